@@ -58,7 +58,7 @@ def commutes(kind, p, plain):
         if isinstance(a, float) and isinstance(b, float):
             ok = same(float(a), float(b))
         else:
-            ok = a == b and type(a) is type(b) if not isinstance(a, tuple) else a == b
+            ok = a == b and isinstance(a, type(b)) if not isinstance(a, tuple) else a == b     # (a str subclass may hand itself back, e.g. from format)
         if not ok:
             probs.append(f"{name}: {a!r} vs built-in {b!r}")
     others = {"Int": [0, 3, -5, 2.5], "Float": [0.0, 1.5, -2, float("inf")], "Str": ["", "ON", "z"], "Binary": [b"", b"\x00", b"zz"], "Bool": [0, 1, 2]}[kind]
@@ -80,6 +80,19 @@ def commutes(kind, p, plain):
                 probs.append(f"two parsed values: {nm} gives {got!r}, the built-in values give {want!r}")
     except Exception as e:  # noqa: BLE001
         probs.append(f"comparing two parsed values raised {type(e).__name__}: {e}")
+    # ordering between parsed values follows the VALUES, whatever their raw values are (here the raw values are ordered the other way)
+    try:
+        for o in others:
+            if isinstance(o, type(plain)) or (kind in ("Int", "Float", "Bool") and not isinstance(o, (str, bytes))):
+                lo_raw, hi_raw = (1, 2) if not (plain < o) else (2, 1)
+                a, b = type(p)(plain, lo_raw), type(p)(base(o) if kind != "Bool" else bool(o), hi_raw)
+                pa, pb = plain, (base(o) if kind != "Bool" else bool(o))
+                for nm, f in (("<", lambda x, y: x < y), (">", lambda x, y: x > y), ("<=", lambda x, y: x <= y), (">=", lambda x, y: x >= y),
+                              ("==", lambda x, y: x == y), ("min", lambda x, y: base(min(x, y))), ("sorted", lambda x, y: [base(v) for v in sorted([x, y])])):
+                    if repr(f(a, b)) != repr(f(pa, pb)):
+                        probs.append(f"ordering of two parsed values ({plain!r} raw {lo_raw}, {o!r} raw {hi_raw}): {nm} gives {f(a, b)!r}, built-ins give {f(pa, pb)!r}")
+    except Exception as e:  # noqa: BLE001
+        probs.append(f"ordering two parsed values raised {type(e).__name__}: {e}")
     if not (kind == "Float" and math.isnan(plain)):
         chk("hash", hash)          # hash(nan) is identity-based since Python 3.10: not comparable between two objects
     chk("str", str)
@@ -192,6 +205,17 @@ def run(ctx):
         if prob:
             what = "raw-rule" if "raw_value" in prob and "after" not in prob else "copy" if "after" in prob else "builtin" if "built-in" in prob else "other"
             ctx.violation(f"C20/{kind}/{what}", f"{kind}({vtok}, raw={rtok}) steps {c['steps']}: {prob}", c)
+    # values beyond the exported tokens: long byte strings and texts, huge and tiny numbers
+    for kind, val in (("Binary", bytes(range(256)) * 2), ("Binary", b"\x00" * 129), ("Str", "x" * 1000 + "\u00e9"), ("Str", "line\nbreak\ttab" * 20),
+                      ("Int", 2 ** 200), ("Int", -(2 ** 70) - 1), ("Float", 1.7976931348623157e308), ("Float", -5e-324), ("Float", 0.1 + 0.2)):
+        try:
+            pr = commutes(kind, cls_of(kind)(val), val)
+        except Exception as e:  # noqa: BLE001
+            pr = [f"exception {type(e).__name__}: {e}"]
+        ctx.traces += 1
+        ctx.count(("extra-value", kind, repr(val)[:40]))
+        if pr:
+            ctx.violation(f"C20/{kind}/builtin", f"{kind}({repr(val)[:60]}): built-in operation differs: " + "; ".join(pr[:3]), {"kind": kind, "value": repr(val)[:200]})
     ctx.extra["builtin_operation_sets_checked"] = sum(1 for x in commuted if len(x) == 2)
     ctx.extra["rewrapped_values_checked"] = sum(1 for x in commuted if len(x) == 3)
     if ctx.extra["rewrapped_values_checked"] < 10 and not ctx.violations:
